@@ -540,7 +540,7 @@ def gen_spec(rng, size="small"):
     n_img = rng.randint(0, 6)
     images = {}
     for i in range(n_img):
-        name = f"{rng.choice(['Pic', 'Map', 'Photo', 'Bild', 'A+B', 'R&D'])} {i}{rng.choice(['', ' x', ' é'])}.{rng.choice(['png', 'jpg', 'svg'])}"
+        name = f"{rng.choice(['Pic', 'Map', 'Photo', 'Bild', 'A+B', 'R&D', 'Fig', 'File list', 'Datei', 'Eiffel'])} {i}{rng.choice(['', ' x', ' é'])}.{rng.choice(['png', 'jpg', 'svg'])}"
         us, anon = users()
         images[name] = {"host": rng.choice(["local", "commons", "commons"]), "size": rng.choice([1, 100, 5000, 40000]),
                         "desc": f"== Summary ==\nDescription of {name} {{{{Information}}}} by [[User:{rng.choice(USERS)}]]\n"
